@@ -1,1 +1,160 @@
-def main : IO Unit := pure ()
+import NfcVerif.Model.Connect
+open NfcVerif NfcVerif.Clf
+
+/-! line protocol of the C18 model driver; token syntax in harness/sims/conn_world.py -/
+
+def tailStr (s : String) : String := String.ofList (s.toList.drop 1)
+def headCh (s : String) : Char := s.toList.headD ' '
+
+def parseAns (t : String) : Option Ans :=
+  match t.splitOn "." with
+  | ["F", sens, rid, p2p, atr] =>
+    match parseHex sens, parseHex rid, atr.toNat? with
+    | some s, some r, some a => some (.found ⟨s, r, p2p == "1", a⟩)
+    | _, _, _ => none
+  | ["0"] => some .nothing | ["c"] => some .commErr | ["k"] => some .brokenLink
+  | ["u"] => some .unsupported | ["i"] => some .ioError | ["K"] => some .kbd
+  | ["X"] => some .sysExit | ["L"] => some .listenErr
+  | [p] => if headCh p == 'p' then (tailStr p).toNat?.map Ans.polls else none
+  | _ => none
+
+def parseList {α} (f : String → Option α) (t : String) : Option (List α) :=
+  if t == "-" then some [] else (t.splitOn ",").mapM f
+
+def parseTgt (t : String) : Option TgtSpec :=
+  match headCh t with
+  | 'a' => if t == "a" then some (.a 0) else (tailStr t).toNat?.map TgtSpec.a
+  | 'b' => some .b | 'f' => some .f
+  | 'd' => (tailStr t).toNat?.map TgtSpec.dep
+  | 'x' => some .unknown | 'n' => some .notTarget
+  | _ => none
+
+def parseLt (t : String) : Option LtSpec :=
+  match t with
+  | "d" => some .dep | "a" => some .a | "b" => some .b | "f" => some .f | "x" => some .other | _ => none
+
+def parseTs (t : String) : Option (List Bool) :=
+  if t == "-" then some [] else t.toList.mapM (fun c => if c == '1' then some true else if c == '0' then some false else none)
+
+def parseCb (t : String) : Option Cb :=
+  if t == "-" then some .absent else t.toNat?.bind (fun n => (Val.ofCode n).map Cb.ret)
+
+/-- on-startup codes per role (see ConnSpec in conn_world.py) -/
+def parseStartup (r : Role) (t : String) : Option (Option (StartRes × Nat)) :=
+  if t == "-" then some none else
+  match r, t.toNat? with
+  | .rdwr, some 0 => some (some (.proper, 0)) | .rdwr, some 1 => some (some (.falsy, 1))
+  | .rdwr, some 2 => some (some (.wrongType, 2)) | .rdwr, some 3 => some (some (.nonIterable, 3))
+  | .rdwr, some 4 => some (some (.falsy, 4))
+  | .llcp, some 0 => some (some (.proper, 0)) | .llcp, some 1 => some (some (.falsy, 1))
+  | .llcp, some 2 => some (some (.wrongType, 2))
+  | .card, some 0 => some (some (.proper, 0)) | .card, some 1 => some (some (.falsy, 1))
+  | .card, some 2 => some (some (.wrongType, 2))
+  | _, _ => none
+
+def parseRdwr (t : String) : Option (Option RdwrOpts) :=
+  if t == "-" then some none else
+  match t.splitOn ";" with
+  | [su, tg, di, co, re, it, bp] =>
+    match parseStartup .rdwr su, parseList parseTgt tg, parseCb di, parseCb co, parseCb re, it.toInt? with
+    | some su, some tg, some di, some co, some re, some it => some (some ⟨su, tg, di, co, re, it, bp == "1"⟩)
+    | _, _, _, _, _, _ => none
+  | _ => none
+
+def parseLlcp (t : String) : Option (Option LlcpOpts) :=
+  if t == "-" then some none else
+  match t.splitOn ";" with
+  | [su, co, re, role] =>
+    let ro : Option RoleOpt := match role with
+      | "-" => some .both | "t" => some .target | "i" => some .initiator | "x" => some .invalid | _ => none
+    match parseStartup .llcp su, parseCb co, parseCb re, ro with
+    | some su, some co, some re, some ro => some (some ⟨su, co, re, ro⟩)
+    | _, _, _, _ => none
+  | _ => none
+
+def parseCard (t : String) : Option (Option CardOpts) :=
+  if t == "-" then some none else
+  match t.splitOn ";" with
+  | [su, kind, di, co, re] =>
+    match parseStartup .card su, parseLt kind, parseCb di, parseCb co, parseCb re with
+    | some su, some k, some di, some co, some re => some (some ⟨su, k, di, co, re⟩)
+    | _, _, _, _, _ => none
+  | _ => none
+
+def showSite : Site → String
+  | .mute => "mute" | .senseA => "sA" | .senseB => "sB" | .senseF => "sF" | .senseDep => "sD"
+  | .listenA => "lA" | .listenB => "lB" | .listenF => "lF" | .listenDep => "lD"
+  | .ledOn => "on" | .ledOff => "off"
+  | .cmdRsp id => s!"xr:{id}" | .rspCmd id => s!"xl:{id}"
+  | .activate => "act" | .emulate => "emu"
+  | .llcActivate i => if i then "la:i" else "la:t"
+  | .llcRun => "run"
+
+def showRole : Role → String | .rdwr => "rdwr" | .llcp => "llcp" | .card => "card"
+def showKind : CbKind → String
+  | .startup => "startup" | .discover => "discover" | .connect => "connect" | .release => "release"
+
+def showEv : Ev → String
+  | .call s => showSite s
+  | .sleep => "sleep"
+  | .term b => if b then "t1" else "t0"
+  | .cb r k c d => (if d then "cb*:" else "cb:") ++ showRole r ++ ":" ++ showKind k ++ s!":{c}"
+
+def showLog (l : List Ev) : String := if l.isEmpty then "-" else " ".intercalate (l.map showEv)
+
+def showTgt : Tgt → String
+  | .none => "none" | .remote id => s!"r{id}" | .loc id => s!"l{id}"
+
+def showFound (remote : Bool) : Py (Option (Nat × Found)) → String
+  | .ok none => "ok none"
+  | .ok (some (id, _)) => (if remote then "ok r" else "ok l") ++ toString id
+  | .error e => "exc " ++ e.name
+
+def showXchg : Py (Option Bool) → String
+  | .ok none => "ok none" | .ok (some _) => "ok data" | .error e => "exc " ++ e.name
+
+def showRet : RetVal → String
+  | .none => "ok None"
+  | .obj r => "ok obj:" ++ showRole r
+  | .val _ v => s!"ok val:{v.code}"
+
+def showOutcome : Outcome → String
+  | .ret v => showRet v
+  | .caught _ => "ok False"
+  | .raised e => "exc " ++ e.name
+
+def parseOp (t : String) : Option Op :=
+  match t.splitOn ":" with
+  | ["S", tg, it] => match parseList parseTgt tg, it.toInt? with
+    | some tg, some it => some (.sense tg it) | _, _ => none
+  | ["L", k] => (parseLt k).map Op.listen
+  | ["X"] => some .exchange
+  | _ => none
+
+/-- run a history, printing the result of every operation and the target afterwards -/
+def runOpsShow : List Op → St → List String → List String × St
+  | [], s, acc => (acc.reverse, s)
+  | o :: rest, s, acc =>
+    let (txt, s1) := match o with
+      | .sense tl it => let r := sense tl it s; (showFound true r.1, r.2)
+      | .listen t => let r := listen t s; (showFound false r.1, r.2)
+      | .exchange => let r := exchange s; (showXchg r.1, r.2)
+    runOpsShow rest s1 ((txt ++ " T:" ++ showTgt s1.target) :: acc)
+
+def handle (line : String) : String :=
+  match line.splitOn " " with
+  | ["ops", env, ops] =>
+    match parseList parseAns env, (ops.splitOn "/").mapM parseOp with
+    | some env, some ops =>
+      let (res, s) := runOpsShow ops (St.init env) []
+      showLog s.log ++ " | " ++ " / ".intercalate res
+    | _, _ => "bad-op"
+  | ["connect", r, l, c, ts, env] =>
+    match parseRdwr r, parseLlcp l, parseCard c, parseTs ts, parseList parseAns env with
+    | some r, some l, some c, some ts, some env =>
+      let (out, s) := connect ⟨r, l, c⟩ env ts
+      showLog s.log ++ " | " ++ showOutcome out
+    | _, _, _, _, _ => "bad-op"
+  | _ => "bad-op"
+
+def main : IO Unit := runDriver handle
